@@ -310,8 +310,22 @@ def r04_4(ctx: Ctx) -> None:
         ok = third is not None and not (isinstance(third, ast.Constant) and third.value is None)
         if ok and isinstance(third, ast.Name):
             vals = q.assigned_values(f, third.id)
-            if any(isinstance(v, ast.Constant) and v.value is None for v in vals) and third.id not in f.params:
+            if any(isinstance(v, ast.Constant) and v.value is None for v in vals):
                 ok = False
+            if third.id in f.params:
+                # a parameter: every resolved call site must supply it, and not as a None constant
+                a = f.node.args
+                pos = [x.arg for x in a.posonlyargs + a.args]
+                bound = pos[1:] if f.cls and not f.is_static else pos
+                callers = shared.calls_to(ctx, f.qname)
+                if not callers:
+                    ok = False
+                for g, c in callers:
+                    idx = bound.index(third.id) if third.id in bound else None
+                    v = c.args[idx] if idx is not None and idx < len(c.args) else next((k.value for k in c.keywords if k.arg == third.id), None)
+                    if v is None or (isinstance(v, ast.Constant) and v.value is None):
+                        ok = False
+                        ctx.note(f"{g.qname}:{c.lineno} calls {f.qname} without a member name")
         if not ok:
             all_ok = False
             bad_sites.append((f, r))
